@@ -146,7 +146,26 @@ def run(ctx):
     cases_in = gen_ints.pairs(ctx.seed, n)
     # one probe of the CPython int->str digit limit (known finding): 2^1023 ** 14 has > 4300 digits
     cases_in.append(["UInt", 2 ** 1023, 14, "huge"])
-    outs, dt = run_impl(cases_in)
+    outs5, dt = run_impl(cases_in)
+    outs = [c[:4] for c in outs5]
+    # a plain Python number on the left (x op T(y)): rejected, or folded to exactly what T(x) op T(y) folds to
+    # (which the specification below checks against exact evaluation)
+    npl = nplacc = 0
+    for (base, x, y, res, plain) in outs5:
+        typed = dict((o, c) for o, c in res)
+        for o, c in plain:
+            npl += 1
+            if c[0] == "R":
+                continue
+            nplacc += 1
+            if o in typed and c != typed[o]:
+                vlib.report_failure(ctx, "C06/plain-left-operand:" + o,
+                                    f"{x} {o} {base}({y}) with a plain number on the left gives {c}, the typed literal on the left gives {typed[o]}",
+                                    dict(case=dict(kind="literal-pair", base=base, x=str(x), y=str(y), operator=o, left_operand="plain Python int"),
+                                         observed=c, expected=typed[o],
+                                         how_to_replay="PYTHONPATH=<repo> /venv/bin/python -c 'from nada_dsl import *; print((x <op> T(y)).value)'"))
+                break
+    ctx.note(f"validate: {npl} operations with a plain number on the left of a literal: {nplacc} accepted, each compared with the typed fold")
     nevals = sum(len(c[3]) for c in outs)
     ctx.note(f"impl: {len(outs)} literal pairs, {nevals} real folded operations ({dt:.1f}s)")
     head = sc.HEAD + "From NadaV.Spec Require Import FoldSpec.\n"
